@@ -313,7 +313,7 @@ def fam_proc(rng, big):
     errsz = pick_size(rng, 300000)
     how = rng.choice(["exit", "exit", "signal"])
     code = rng.choice([0, 1, 2, 37, 126, 127, 128, 129, 137, 254, 255]) if rng.chance(1, 2) else rng.range(0, 255)
-    sig = rng.choice([1, 2, 3, 6, 9, 10, 14, 15])
+    sig = rng.choice([1, 2, 3, 6, 9, 10, 13, 14, 15])
     sc = {"family": "proc", "streams": [{"kind": ":proc", "errpayload": 1, "how": how, "code": code, "sig": sig}],
           "payload_sizes": [insz, errsz], "fibers": [], "expects": [], "complete": True, "proc": True,
           "expect_status": code if how == "exit" else 128 + sig}
@@ -468,6 +468,13 @@ def oracle_inner(sc, res):
     ops, fibers, alldone = parse_events(res["stdout"])
     trace = res["trace"]
     # 0. sanitizer / crash
+    if res["rc"] == -13:
+        inflight = [o for o in parse_events(res["stdout"])[0] if o["end"] is None]
+        fails.append(("write-to-closed-pipe-kills-process",
+                      "the whole interpreter was killed by SIGPIPE while a fiber wrote to a stream whose other end is closed "
+                      "(the write neither completed nor raised; every other fiber died with it); in flight: %s"
+                      % ", ".join("%s[%s] %s %s" % (o["fiber"], o["idx"], o["kind"], " ".join(o["args"])) for o in inflight[:5])))
+        return fails, parse_events(res["stdout"])[0]
     if res["rc"] is not None and res["rc"] < 0:
         fails.append(("crash:signal%d" % -res["rc"], "interpreter killed by signal %d" % -res["rc"]))
     if "ERROR: AddressSanitizer" in res["stderr"] or "runtime error:" in res["stderr"]:
